@@ -19,6 +19,8 @@ var secureOriginAtoms = []string{
 	"https://sub.example.com", "https://xexample.com", "connector://localhost",
 	// not public suffixes although they look like it: exception rules (!city.kawasaki.jp, !www.ck) and the parent of a wildcard rule
 	"https://*.city.kawasaki.jp", "https://*.www.ck", "https://*.kawasaki.jp:*", "https://*.compute.amazonaws.com",
+	// ports beyond 2^15 and with five digits
+	"https://example.com:32768", "https://example.com:65535", "https://*.example.com:49152", "http://localhost:40000", "https://example.com:10000", "http://127.0.0.1:65534",
 }
 
 var insecureOriginAtoms = []string{
@@ -240,6 +242,11 @@ func originPools(c Cfg) (allowed, near []string) {
 		addA(instantiate(p, "sub", "8080"))
 		addA(instantiate(p, "a.b", ""))
 		addA(instantiate(p, "s", "8080")) // shortest possible instance, for patterns at the length limit
+		if p.Port == "*" {
+			addA(instantiate(p, "sub", "32768")) // any port means any port: beyond 2^15, five digits, the largest
+			addA(instantiate(p, "sub", "65535"))
+			addA(instantiate(p, "sub", "1"))
+		}
 		if !strings.HasPrefix(p.Host, "[") {
 			addN(originString(p.Scheme, "x"+p.Host, p.Port))
 			addN(instantiate(Pat{Scheme: p.Scheme, Wild: p.Wild, Host: "x" + p.Host, Port: p.Port}, "sub", "8080"))
